@@ -7,11 +7,11 @@ CONSTANTS
   Offs = {0}
   Rtds = {1}
   DistinctOnly = FALSE
-  Clk0s = {0, 1}
+  Clk0s = {1}
   MaxEv = 6
   FilterAverage = 20
-  Classes <- ClassesAll
-  StepAt = {}
-  MaxInDo = 0
-  EmitMinInDo = 0
+  Classes <- Classes3
+  StepAt = {0, 1, 2}
+  MaxInDo = 1
+  EmitMinInDo = 1
 INVARIANTS Emit
